@@ -233,14 +233,31 @@ def judge_histories(ctx, hist, traces, t, configs):
 
 # ------------------------------------------------------------------------------------ memfd half
 def memfd_cases(ctx, allc):
-    groups = {}
+    """quick: one case per (size, pattern) with the reader kinds dealt round-robin (seeded start), so that
+    every reader kind -- in particular every file reader whose st_size differs from what it yields --
+    occurs about three times; plus both kernel-file cases and two executed cases.
+    thorough: two per (size, pattern, reader) + all kernel-file and executed classes."""
+    rng = ctx.rng
+    by = {}
     for c in allc:
-        groups.setdefault((c["size"], c["pat"]) if ctx.quick() else (c["size"], c["pat"], c["reader"]), []).append(c)
+        by.setdefault((c["size"], c["pat"], c["reader"]), []).append(c)
+    readers = sorted({k[2] for k in by if k[1] not in ("probe", "kernel")})
     cases = []
-    for k in sorted(groups):
-        g_ = groups[k]
-        n = (2 if k[1] == "probe" else 1) if ctx.quick() else 3
-        cases += ctx.rng.sample(g_, min(n, len(g_)))
+    if ctx.quick():
+        sp = sorted({(k[0], k[1]) for k in by if k[1] not in ("probe", "kernel")})
+        start = rng.randrange(len(readers))
+        for i, (size, pat) in enumerate(sp):
+            cases.append(rng.choice(by[(size, pat, readers[(start + i) % len(readers)])]))
+        for k in sorted(by):
+            if k[1] == "kernel":
+                cases.append(rng.choice(by[k]))
+        ex = sorted(k for k in by if k[1] == "probe")
+        for k in rng.sample(ex, 2):
+            cases.append(rng.choice(by[k]))
+    else:
+        for k in sorted(by):
+            cases += rng.sample(by[k], min(2, len(by[k])))
+    cases = [dict(c) for c in cases]
     for i, c in enumerate(cases):
         c["id"] = i + 1
     return cases
@@ -258,7 +275,13 @@ def replay_memfd(ctx, cases, probe_dir):
     for tr in traces:
         if tr.get("setup"):
             raise vlib.Inconclusive("memfd case %d could not be run: %s" % (tr["id"], tr["setup"]))
-    ctx.log("memfd: %d cases run on the real DupToMemfd" % len(cases))
+    skipped = [tr for tr in traces if tr.get("skip")]
+    for tr in skipped[:2]:
+        ctx.note("memfd case skipped (%s): %s" % (tr["reader"], tr["skip"]))
+    traces = [tr for tr in traces if not tr.get("skip")]
+    ctx.cov["memfd_skipped"] = len(skipped)
+    ctx.cov["memfd_reader_kinds"] = sorted({tr["reader"] for tr in traces})
+    ctx.log("memfd: %d cases run on the real DupToMemfd (%d skipped)" % (len(traces), len(skipped)))
     return traces
 
 
@@ -278,11 +301,11 @@ def judge_memfd(ctx, traces, t):
         at = b["matched"]
         e = tr["ev"][at] if at < len(tr["ev"]) else {}
         if e.get("e") == "dup":
-            raise vlib.Inconclusive("memfd case %d: DupToMemfd failed / wrong input: %s" % (tr["id"], json.dumps(e)[:500]))
-        what = {"handover": "the memfd handed out by DupToMemfd does not hold exactly the supplied bytes or is not positioned at offset 0",
+            raise vlib.Inconclusive("memfd case %d: DupToMemfd failed / the reader is not the source the case asks for: %s" % (tr["id"], json.dumps(e)[:500]))
+        what = {"handover": "the memfd handed out by DupToMemfd does not hold exactly the bytes its reader yielded or is not positioned at offset 0",
                 "op": "a mutation attempt by the holder of the descriptor changed the sealed file",
                 "exec": "the program executed from the memfd changed it"}.get(e.get("e"), "rejected")
-        cls = "size%s" % ("=0" if tr["size"] == 0 else "<=page" if 0 < tr["size"] <= 4096 else ">page" if tr["size"] > 4096 else ":probe")
+        cls = "size%s" % ("=0" if tr["size"] == 0 else "<=page" if 0 < tr["size"] <= 4096 else ">page" if tr["size"] > 4096 else ":" + tr["pat"])
         key = "memfd:%s:%s:%s%s" % (e.get("e"), cls, tr["reader"], (":" + e["op"]) if e.get("e") == "op" else "")
         ctx.violation(key, "%s: %s" % (what, json.dumps(e)[:500]), {"case": tr, "rejected_event": at + 1})
     ctx.cov["drift"] = ctx.cov.get("drift", 0) + drift
